@@ -18,14 +18,15 @@ uint64_t *e1_outhash; uint64_t e1_outhash_n; static uint64_t outhash_cap;
 extern int vf_suppress;
 
 static vf_snap *take_snap(void) {
-    if (C->state_size) {
-        vf_snap *s = malloc(sizeof *s + C->state_size);
+    if (C->state_size) {       /* compact custom state + the core's own writable sections (a static added to the core must not escape) */
+        size_t cs = vf_core_size();
+        vf_snap *s = malloc(sizeof *s + C->state_size + cs);
         if (!s) vf_harness_error("out of memory (states)");
-        s->size = (uint32_t)C->state_size; C->save(s->data); return s;
+        s->size = (uint32_t)(C->state_size + cs); C->save(s->data); vf_core_save(s->data + C->state_size); return s;
     }
     return vf_snapshot(C->model, C->model_size);
 }
-static void put_snap(const vf_snap *s) { if (C->state_size) C->restore(s->data); else vf_restore(s, C->model, C->model_size); }
+static void put_snap(const vf_snap *s) { if (C->state_size) { C->restore(s->data); vf_core_load(s->data + C->state_size); } else vf_restore(s, C->model, C->model_size); }
 
 static int tab_insert(uint64_t h1, uint64_t h2) {          /* 1 if new */
     if (h1 == 0 && h2 == 0) h2 = 1;
@@ -50,6 +51,7 @@ static void compute_key(uint64_t *h1, uint64_t *h2) {
     size_t n = C->no_heap_key ? 0 : vf_canon(keybuf, keycap - 4096);
     if (C->model_size && !C->no_model_key) { memcpy(keybuf + n, C->model, C->model_size); n += C->model_size; }
     if (C->extra_key) n += C->extra_key(keybuf + n, keycap - n);
+    if (C->no_heap_key) { vf_core_save(keybuf + n); n += vf_core_size(); }      /* time-abstracted keys still see the core's statics */
     *h1 = vf_hash64(keybuf, n, 1);
     *h2 = vf_hash64(keybuf, n, 0x5bd1e995);
 }
